@@ -51,9 +51,14 @@ func runC16(c *core.Ctx) {
 	for _, a := range p.Args {
 		a.EnvSet = pi%3 == 0 && c.R.Intn(2) == 0 // a set environment variable must not change the generated spec
 		a.Hide = c.R.Intn(4) == 0                // nor does HideValue: it is about the help only
+		a.FlagLike = c.R.Intn(6) == 0            // nor a bool-like value type
+		a.Default = ""
+		if c.R.Intn(4) == 0 {
+			a.Default = "dflt" // nor a non-empty default
+		}
 	}
 	// argument names: some are suffixes / prefixes of one another
-	names := []string{"X", "Y", "Z_2", "SRC", "SRC_FILE", "FILE", "C", "DST", "DST2", "S", "ARGUMENT_NUMBER_11", "ARGUMENT_NUMBER_12", "ARGUMENT_NUMBER_13"}
+	names := []string{"X", "Y", "Z_2", "FILE_", "A_", "SRC", "SRC_FILE", "FILE", "C", "DST", "DST2", "S", "ARGUMENT_NUMBER_11", "ARGUMENT_NUMBER_12", "ARGUMENT_NUMBER_13"}
 	c.R.Shuffle(len(names), func(i, j int) { names[i], names[j] = names[j], names[i] })
 	for i, a := range p.Args {
 		a.Name = names[i]
